@@ -543,7 +543,10 @@ Proof.
 Qed.
 
 Lemma downgrade_P ok s : P s -> P (fst (downgrade c nested ok s)).
-Proof. intros HP. unfold downgrade. apply reconnect_body_P. apply P_set_proto. exact HP. Qed.
+Proof.
+  intros HP. unfold downgrade. pose proof (reconnect_body_P ok _ (P_set_proto 3 s HP)) as H.
+  destruct (reconnect_body c nested ok (set_proto 3 s)) as [s1 [rc|]]; exact H.
+Qed.
 
 Lemma handle_server_disconnect_P rc s : P s -> P (fst (handle_server_disconnect c nested rc s)).
 Proof.
